@@ -137,6 +137,15 @@ def gen_case(rng, gate):
                      "reflection": True}
         if rng.random() < 0.4:
             t["plan"] = None if gate not in ("reflection",) else t["plan"]
+    if rng.random() < (0.5 if gate.startswith("perf") else 0.2):
+        # the same question asked again by the same agent at the same logical time: the stage caches serve hits, so the
+        # gated code on the hit paths runs too
+        for t in turns[1:]:
+            t["agent"], t["text"], t["now_ms"] = turns[0]["agent"], turns[0]["text"], turns[0]["now_ms"]
+        if len(turns) < 3:
+            turns.append(dict(copy.deepcopy(turns[-1]), turn=len(turns) + 1))
+        base["t1"]["cache"] = {"enabled": True}
+        base["t2"]["cache"] = {"enabled": True}
     return {"gate": gate, "world": world, "base": base, "turns": turns, "seed": rng.randint(0, 10 ** 9)}
 
 
